@@ -141,7 +141,7 @@ def theorem_names(module):
         if m and stack and stack[-1] == m.group(1):
             stack.pop()
             continue
-        m = re.match(r"^(?:@\[[^\]]*\]\s*)?(?:protected\s+|private\s+)?theorem\s+(\S+)", line)
+        m = re.match(r"^(?:@\[[^\]]*\]\s*)?(?:protected\s+)?theorem\s+(\S+)", line)  # private helper lemmas are not obligations
         if m:
             names.append(".".join(stack + [m.group(1)]))
     return names, path
